@@ -21,6 +21,7 @@ package imports
 // the first path segment (by the lemma above this is the only alias that can match), and it is replaced by its path.
 //@ func (*imports).decorateImport pure
 //@   property C14 C08
+//@   deterministic
 //@   uses alias_is_first_segment
 //@   requires [alias_table_invariant] aliasesWellFormed(i.prefixes)
 //@   ensures [segment_match] (firstSegment(imp) in i.prefixes) ==>
